@@ -433,6 +433,7 @@ void comp_sweep(mc::Reporter& r, Ctx& c, char const* type, CompSpace const& sp, 
     auto kase = [&] { return cat(type, "{", y, ",", m, extra, "} ", kCompOps[op], " ", (op < 5 ? "months{" : "years{"), k, "}"); };
     std::string subjects[10];
     for (int i = 0; i < 10; ++i) { subjects[i] = cat(type, "::", kCompOps[i]); }
+    c.recent.clear(); // the cache compares subject pointers: never carry it over to another subjects[] array
     for (int yy : sp.years) {
         y = yy;
         if (r.deadline_passed()) {
